@@ -131,9 +131,14 @@ def _parse_block(p):
     unwinding = any('unwinding assertion' in f['desc'] for f in failed)
     unsupported = any(re.search(r'is not currently supported by Kani|unsupported', f['desc']) for f in failed)
     pb = None
-    pm = re.search(r'Concrete playback unit test for `[^`]*`:\n```\n(.*?)```', p, re.S)
-    if pm:
-        pb = pm.group(1)
+    # Kani prints one playback test per failed check AND per satisfied cover: take one for a failed check
+    pbs = re.findall(r'Concrete playback unit test for `[^`]*`:\n```\n(.*?)```', p, re.S)
+    for cand in pbs:
+        if not re.search(r'Check for `cover`', cand):
+            pb = cand
+            break
+    if pb is None and pbs:
+        pb = pbs[0]
     return dict(status=st, failed_checks=failed, covers=covers,
                 covers_satisfied=int(cm.group(1)) if cm else len([v for v in covers.values() if v == 'SATISFIED']),
                 covers_total=int(cm.group(2)) if cm else len(covers),
